@@ -108,6 +108,7 @@ FILL = [
     lambda r, nl: "<%" + nl + "    fq_ = 1" + nl + "    fr_ = 2" + nl + "%>" + nl,
     lambda r, nl: "## comment line" + nl,
     lambda r, nl: nl + nl,
+    lambda r, nl: "## comment then a blank line" + nl + nl,
     lambda r, nl: "<%doc>" + nl + "doc" + nl + "</%doc>" + nl,
     lambda r, nl: "multi" + nl + "line" + nl,
     lambda r, nl: "% for fi_ in (1, 2):" + nl + "${fi_}" + nl + "% endfor" + nl,
@@ -366,6 +367,18 @@ def run_traceback_case(r, pos, path, nl, res):
             after = text_page[text_page.index(needle) + len(needle):].split("\n")
             if len(after) < 2 or after[1].strip() != ltxt.strip():
                 res.violate("text-error-page-line", "%s\nline after %r is %r, template line is %r" % (what, needle, after[1:2], ltxt), replay_case=rc)
+        # EVERY frame that belongs to a template must be shown under the template's own name and line,
+        # also glue frames and frames that map to a blank template line
+        tb4 = rt.traceback
+        for x, shown_rec in zip(recs, tb4):
+            if x[4] is None:
+                continue
+            if tuple(shown_rec[:2]) != (x[4], x[5]):
+                res.violate("template-frame-shown-raw", "%s\nframe %r of template %s line %d is shown as %r" % (what, x[2], x[4], x[5], shown_rec), witness=pos, replay_case=rc)
+            if ('File "%s", line %d' % (x[4], x[5])) not in text_page:
+                res.violate("text-error-page-frame", "%s\ntext error template lacks the frame %s line %d (function %s)" % (what, x[4], x[5], x[2]), witness=pos, replay_case=rc)
+            if x[0] != x[4] and ('File "%s"' % x[0]) in text_page:
+                res.violate("text-error-page-raw-module", "%s\ntext error template shows the generated module %r" % (what, x[0]), witness=pos, replay_case=rc)
         res.count("html_error_pages")
         plain = strip_html(html_page)
         needle2 = "%s, line %d:" % (ids[uri], line)
